@@ -78,7 +78,7 @@ pub fn shared_stream_spaces(ctx: &Ctx, st: &mut Local, f: Sink) {
     // one reference per stream at the length / distance boundaries
     {
         let dists: Vec<u16> = if ctx.quick() {
-            e4_quick_dists().into_iter().filter(|d| *d <= 8 || *d >= 250).collect()
+            e4_quick_dists().into_iter().filter(|d| *d <= 8 || *d >= 249).collect()
         } else {
             let mut v = e4_quick_dists();
             v.extend((301..32768u32).step_by(61).map(|d| d as u16));
@@ -115,10 +115,15 @@ pub fn shared_stream_spaces(ctx: &Ctx, st: &mut Local, f: Sink) {
     e6_compgrid(ctx, "E6big", &bigcomps, &bigtexts, st, &mut g);
     // every alignment of a long match relative to the hash chain's position re-base thresholds
     let acomps: Vec<Comp> = if ctx.quick() { vec![Comp::Zlib(6, 0, 15, 8), Comp::Libdeflate(6)] } else {
-        vec![Comp::Zlib(1, 0, 15, 8), Comp::Zlib(4, 0, 15, 8), Comp::Zlib(6, 0, 15, 8), Comp::Zlib(9, 0, 15, 9), Comp::ZlibNg(2), Comp::ZlibNg(6), Comp::Libdeflate(1), Comp::Libdeflate(6), Comp::Miniz(1), Comp::Miniz(6)]
+        vec![Comp::Zlib(1, 0, 15, 8), Comp::Zlib(4, 0, 15, 8), Comp::Zlib(6, 0, 15, 8), Comp::Zlib(9, 0, 15, 9), Comp::ZlibNg(1), Comp::ZlibNg(2), Comp::ZlibNg(6), Comp::Libdeflate(1), Comp::Libdeflate(6), Comp::Miniz(1), Comp::Miniz(6)]
     };
     let wins: Vec<(usize, usize)> = if ctx.quick() { vec![(65024 - 270, 65024 + 520)] } else { vec![(65024 - 300, 65024 + 520), (97280 - 300, 97280 + 520), (32768 - 300, 32768 + 300)] };
     e6_align(ctx, "E6align", &acomps, &wins, st, &mut g);
+    // 4 KiB boundaries of the fast compressors' dictionary add policies (miniz level 1: no insertion at
+    // offsets 4093..4095 mod 4096; zlib-ng level 1: 32 KiB boundary) and zlib level 1
+    let fcomps: Vec<Comp> = vec![Comp::Miniz(1), Comp::Zlib(1, 0, 15, 8), Comp::ZlibNg(1)];
+    let fwins: Vec<(usize, usize)> = if ctx.quick() { vec![(4096 - 12, 4096 + 8), (8192 - 12, 8192 + 8)] } else { vec![(4096 - 20, 4096 + 20), (8192 - 20, 8192 + 20), (12288 - 20, 12288 + 20), (32768 - 300, 32768 + 40)] };
+    e6_align(ctx, "E6align4k", &fcomps, &fwins, st, &mut g);
     let sweep = if ctx.quick() { 96 } else { 512 };
     let kinds: &[usize] = if ctx.quick() { &[1, 3] } else { &[0, 1, 2, 3] };
     e6_lensweep(ctx, "E6len", &zlib_lensweep_comps(), kinds, sweep, st, &mut g);
